@@ -434,10 +434,12 @@ def contains_capturing(ctx):
     return _emit(d)
 
 
-@rule("CLEAR-BEYOND", ["C03", "C19", "C04", "C15"], floor=4)
+@rule("CLEAR-BEYOND", ["C03", "C19", "C04", "C15", "C05"], floor=5)
 def clear_beyond(ctx):
     """clear_captured_groups_beyond(pos): every group (and every back-reference slot) whose start is at or after
-    pos gets end := start; both arrays are treated alike."""
+    pos gets end := start; both arrays are treated alike, on every call (no exit before both arrays were walked:
+    the back-reference arrays are not part of the saved capture state, this function is what keeps start <= end in
+    them - the subtraction end - start in BackReference::matches_iter is audited against that)."""
     P = "re_matcher::ReMatcher::clear_captured_groups_beyond"
     b = ctx.body(P)
     if b is None:
@@ -449,6 +451,9 @@ def clear_beyond(ctx):
     pairs = {"capture_state_startn": ("set_capture_state_endn", "startn_len"), "start_backref": ("set_end_backref", "start_backref_len")}
     ranges = set()
     for p in ctx.walk(b).paths:
+        if p.end == "return":
+            skipped = [h for h in loops if h not in p.blocks]
+            _rec(d, "every-call-walks-both-arrays", not skipped, "clear_captured_groups_beyond returns without walking %s (guards %s): stale entries at or after pos survive - in the back-reference arrays, which no state restore repairs, that leaves start > end" % ("both arrays" if len(skipped) == 2 else "one of the arrays", [_sh(strip_ver(g)) for g in summarize(p)[0]][:3]), b.loc(p.blocks[-1]))
         for a, o in p.guards:
             s = _sh(strip_ver(render(a)))
             m = re.match(r"^variant\((next\(Range::Range\{.*\}\))\)$", s)
@@ -688,6 +693,41 @@ def order_reluctant(ctx):
     return _emit(d)
 
 
+def _stack_base_counted(b):
+    """In Repeat::matches_iter: the Vec::len whose value is added to the iteration bound is taken of the iterator
+    stack after the (conditional) push of the zero-occurrence entry and before the priming loop."""
+    se = StaticEnv(b)
+    loops = b.natural_loops()
+    lens = [(bb, t) for bb, t in b.calls() if (callee(t)[1] or "").endswith("Vec::<T, A>::len") or (callee(t)[1] or "").endswith("Vec::len")]
+    pushes = [bb for bb, t in b.calls() if (callee(t)[1] or "").endswith("::push") and "once(" in show(se.operand(t["args"][1]))]
+    if not pushes or not loops:
+        return False
+
+    def reach(src):
+        seen, st = set(), [src]
+        while st:
+            x = st.pop()
+            for s in b.succs(x):
+                if s not in seen and not b.blocks[s]["cleanup"]:
+                    seen.add(s)
+                    st.append(s)
+        return seen
+
+    good = []
+    for bb, t in lens:
+        if b.blocks[bb]["cleanup"] or "Vec::new()" not in show(se.operand(t["args"][0])):
+            continue
+        if any(bb in blocks for blocks in loops.values()):
+            continue
+        r = reach(bb)
+        if any(p in r for p in pushes):
+            continue  # the zero entry could be pushed after the count was taken
+        if not all(h in r for h in loops) or not all(bb in reach(p) for p in pushes):
+            continue
+        good.append(bb)
+    return len(good) == 1
+
+
 @rule("REPEAT-ITER", ["C06", "C01", "C02", "C20", "C16"], floor=8)
 def repeat_iter(ctx):
     """Repeat::matches_iter: the priming loop and the iterator stack are bounded by min(max, remaining+1) (the
@@ -718,6 +758,12 @@ def repeat_iter(ctx):
             _rec(d, "greedy-iterator", inner.startswith("GreedyRepeatIterator::new(a2, a1.operation, "), "greedy repeat must be driven by GreedyRepeatIterator(matcher, child, ...); found %s" % r[:80], loc)
             mb = re.search(r", (Ord::m(?:ax|in)\(.*\)|[^,()]+), a1\.min\)$", inner)
             bnd = mb.group(1) if mb else "?"
+            # the bound handed to the iterator is a bound on the *stack*: the bound on the iterations plus the
+            # entries that are not iterations (the zero-occurrence entry), counted before the priming loop
+            ms = re.search(r", add\((Ord::m(?:ax|in)\(.*\)|[^,()]+), len\(Vec::new\(\)\)\), a1\.min\)$", inner)
+            if ms:
+                bnd = ms.group(1)
+            _rec(d, "greedy-stack-bound-counts-the-zero-entry", bool(ms) and _stack_base_counted(b), "the bound given to GreedyRepeatIterator limits the length of the iterator stack, which holds the zero-occurrence entry (min == 0) besides the iterations: it must be the iteration bound plus the number of entries on the stack before the priming loop, or backtracking allows one iteration fewer than priming ('^(?:a|ab){0,2}c' on 'abac'); found %s" % inner[-120:], loc)
             REM = "satsub(add(1, len(a2.search)), a3)"
             capped = "Ord::min(a1.max, %s)" % REM
             _rec(d, "greedy-bound-finite", bnd in (capped, "Ord::max(%s, a1.min)" % capped, "Ord::max(a1.min, %s)" % capped), "the iterator stack must be bounded by max(min, min(max, remaining input + 1)): anything larger lets iterations that match nothing pile up without end; found %s" % bnd[:120], loc)
